@@ -169,7 +169,7 @@ fn gen_frontier(s: &mut Src<'_>) -> Frontier {
         amounts.push(a);
     }
     let total_in: u128 = amounts.iter().map(|a| u128::from(*a)).sum();
-    let kind_idx = s.weighted(&[8, 6, 6, 6, 8, 4, 4, 4, 3, 4]);
+    let kind_idx = s.weighted(&[80, 60, 60, 60, 80, 40, 40, 40, 30, 40, 3]);
     let kinds = [
         "exact-balance",
         "mint-by-one",
@@ -181,6 +181,7 @@ fn gen_frontier(s: &mut Src<'_>) -> Frontier {
         "same-coin-twice",
         "surplus",
         "same-coin-twice-padded-amount",
+        "many-outputs-in-one-spend",
     ];
     let kind = kinds[kind_idx];
     // outputs: (amount) list and fees
@@ -245,13 +246,19 @@ fn gen_frontier(s: &mut Src<'_>) -> Frontier {
             outs.push(a);
         }
         7 | 9 => {}
+        10 => {
+            // 1000..2600 small outputs, all created by the first spend (an airdrop / payout)
+            let n = 1000 + s.below(1600);
+            let per = ((total_in / (n as u128 + 1)).min(1000)) as u64;
+            outs = vec![per; n];
+        }
         _ => outs = split_amount(total_in / 2, s),
     }
     // ---- build
     let mut conds: Vec<Vec<Tid>> = vec![vec![]; n_spends];
     let mut hint_toggle = false;
     for (k, am) in outs.iter().enumerate() {
-        let target = s.below(n_spends);
+        let target = if kind_idx == 10 { 0 } else { s.below(n_spends) };
         let op = t.atom(&[51]);
         let mut ph = [0x51u8; 32];
         if kind_idx == 6 {
@@ -542,7 +549,7 @@ pub fn property() -> Property {
                 run: case_parse_frontier,
                 inflight: false,
                 min_nontrivial: 20_000,
-                required_labels: &["accepted:exact-balance", "accepted:exact-fee", "rejected:mint-by-one", "rejected:fee-one-too-many", "rejected:wrapped-output-sum", "rejected:wrapped-fee-sum", "rejected:duplicate-output-differing-hint", "rejected:same-coin-twice", "rejected:same-coin-twice-padded-amount", "accepted:sum-exceeds-64-bits", "spends>=1000"],
+                required_labels: &["accepted:exact-balance", "accepted:exact-fee", "rejected:mint-by-one", "rejected:fee-one-too-many", "rejected:wrapped-output-sum", "rejected:wrapped-fee-sum", "rejected:duplicate-output-differing-hint", "rejected:same-coin-twice", "rejected:same-coin-twice-padded-amount", "accepted:many-outputs-in-one-spend", "accepted:sum-exceeds-64-bits", "spends>=1000"],
             },
             SubCheck {
                 name: "parse-standard",
